@@ -34,6 +34,11 @@ func extra(prop string, probes []xeng.Probe, meta *gen.Meta) error {
 	if prop != "C04" {
 		return nil
 	}
+	if nst, err := strayElementFaults(meta); err != nil {
+		return err
+	} else {
+		meta.Notes = append(meta.Notes, fmt.Sprintf("%d executions of a list of 4 in which 1..3 elements are of a Go type the schema does not know (panic inside generated code, in the element's goroutine), each case 12 times over, worker_limit 0/1/2/8: only those elements null, one error each at its path, recover hook once per panic, no crash", nst))
+	}
 	nser := serializationPanics(meta)
 	meta.Notes = append(meta.Notes, fmt.Sprintf("%d observations of a panic inside the response function (where generated code serializes) in front of the POST, SSE, multipart/mixed and websocket transports: recover hook once, a body that is well-formed for its content type and carries the error, the server keeps serving", nser))
 	type expect struct {
